@@ -8,7 +8,8 @@ MODULE = 'Proofs.Props.C01'
 THEOREMS = ['Facto.mirroredComparator_spec', 'Facto.emitted_mirror_sound', 'Facto.cmp_mirror', 'Facto.condIs_sound', 'Facto.constVal_sound', 'Facto.Circuit.settle', 'Facto.Circuit.settled_fixpoint', 'Facto.Circuit.settled_stable', 'Facto.Circuit.checkRanked_sound', 'Facto.Circuit.evalEnt_local', 'Facto.get_evalArith_scalar', 'Facto.get_evalDecider_single', 'Facto.rule_arith', 'Facto.rule_neg', 'Facto.rule_proj', 'Facto.rule_and_bool', 'Facto.rule_or_bool', 'Facto.rule_not', 'Facto.rule_cmp', 'Facto.rule_gate_copy', 'Facto.boolI_is_bool',
             'Facto.read_isolated', 'Facto.emits_evalEnt', 'Facto.matchOperand_sound', 'Facto.opIs_sound', 'Facto.entIs_sound',
             'Facto.chain_sound', 'Facto.lowerings_sound', 'Facto.checkNode_sound', 'Facto.checkAll_sound', 'Facto.scalar_end_to_end',
-            'Facto.MatchExample.accepts', 'Facto.MatchExample.ranked', 'Facto.MatchExample.holds_for_all_inputs', 'Facto.MatchExample.rhs_value', 'Facto.observed_scalar_end_to_end', "Facto.Circuit.settle_from", "Facto.Circuit.fixpoint_unique", "Facto.Circuit.history_independent", "Facto.scalar_history_end_to_end", "Facto.evalEnt_congr", "Facto.prune_run", "Facto.restrict_run", "Facto.scalar_end_to_end_pruned", "Facto.scalar_end_to_end_cone", "Facto.observed_scalar_end_to_end_pruned"]
+            'Facto.MatchExample.accepts', 'Facto.MatchExample.ranked', 'Facto.MatchExample.holds_for_all_inputs', 'Facto.MatchExample.rhs_value', 'Facto.observed_scalar_end_to_end', "Facto.Circuit.settle_from", "Facto.Circuit.fixpoint_unique", "Facto.Circuit.history_independent", "Facto.scalar_history_end_to_end", "Facto.evalEnt_congr", "Facto.prune_run", "Facto.restrict_run", "Facto.scalar_end_to_end_pruned", "Facto.scalar_end_to_end_cone", "Facto.observed_scalar_end_to_end_pruned",
+            "Facto.components_sound", "Facto.components_complete", "Facto.components_exact", "Facto.mem_prodOf_iff", "Facto.prodR_eq", "Facto.prodG_eq"]
 
 
 def run(res, tier):
